@@ -182,8 +182,8 @@ def main(argv=None):
 
     ok, perr = prime(prop, env, log)
     harness_errors = []
-    if not ok:
-        harness_errors.append("prime: " + perr)
+    prime_err = None if ok else perr
+    ok = True  # a failing prime is only an error if the checks themselves find nothing (see below)
 
     # ---- known findings / corpus replays
     kf_path = os.path.join(VERIF_DIR, "known_findings.json")
@@ -305,6 +305,8 @@ def main(argv=None):
         if ps is not None and ps["evaluations"] > 0 and ps["distinct_nontrivial"] == 0 and not any(
                 v[0] == s["name"] for v in violations):
             vacuous.append(s["name"])
+    if prime_err and rc == 0:
+        harness_errors.append("prime: " + prime_err)
     if vacuous and rc == 0:
         harness_errors.append(f"vacuous sub-checks (no non-trivial case): {vacuous}")
 
